@@ -33,6 +33,7 @@ const LINES: &[(&str, &str)] = &[
     ("fn f() { 99 }", ""),
     ("1 / 0; let x = 7", ""), // fails before it would rebind x: the earlier x must survive
     ("fn f() { 1", ""),       // a block still open at the end of the line
+    ("let x = [10, 20][5]", ""), // a let whose own initialiser fails: x keeps its earlier binding, or stays undefined
 ];
 const CORE: usize = 12;
 
